@@ -76,7 +76,7 @@ def src_fan_out(pout="FIRST_AVAILABLE", blocking=True, iat=(2, 2, 2, 2, 2, 2), c
 
 
 def comb_split(recipe=(1, 2), piat=(8, 8), iiat=(2, 2, 2, 2, 2), cpd=(4,), spd=(2,), cb=True, spb=True, T=200,
-               spout="FIRST_AVAILABLE", two_ing=False, caps=(2, 4, 2, 3), iiat2=None):
+               spout="FIRST_AVAILABLE", two_ing=False, caps=(2, 4, 2, 3), iiat2=None, out_delay=0):
     nodes = [_n("source", blocking=True, iat=list(piat), kind="pallet"), _n("source", blocking=True, iat=list(iiat))]
     edges = [_e("buffer", 0, 2 + (1 if two_ing else 0), cap=caps[0]), _e("buffer", 1, 2 + (1 if two_ing else 0), cap=caps[1])]
     if two_ing:
@@ -86,7 +86,8 @@ def comb_split(recipe=(1, 2), piat=(8, 8), iiat=(2, 2, 2, 2, 2), cpd=(4,), spd=(
     nodes.append(_n("combiner", recipe=list(recipe), pd=list(cpd), blocking=cb))
     nodes.append(_n("splitter", pd=list(spd), blocking=spb, policy_out=spout))
     nodes += [_n("sink"), _n("sink")]
-    edges += [_e("buffer", c, c + 1, cap=caps[2]), _e("buffer", c + 1, c + 2, cap=caps[3]), _e("buffer", c + 1, c + 3, cap=caps[3])]
+    edges += [_e("buffer", c, c + 1, cap=caps[2]), _e("buffer", c + 1, c + 2, cap=caps[3], delay=out_delay),
+              _e("buffer", c + 1, c + 3, cap=caps[3], delay=out_delay)]
     return {"Q": Q, "T": T, "family": "combiner-splitter", "expect": "valid", "drains": False, "nodes": nodes, "edges": edges}
 
 
@@ -196,6 +197,10 @@ def families(tier):
                                                      ["FIRST_AVAILABLE", "ROUND_ROBIN"]):
         C.append(comb_split(recipe=recipe, cb=cb, spb=spb, spout=spout))
     C.append(comb_split(recipe=(1, 2, 1), two_ing=True))
+    # big pallets into small, slow out-edges: the out-edges fill up while one pallet is being unpacked
+    for spb, spout, cap3 in itertools.product([True, False], ["FIRST_AVAILABLE", "ROUND_ROBIN", 1], [1, 2]):
+        C.append(comb_split(recipe=(1, 4), piat=(4, 4, 4), iiat=(1,) * 12, cpd=(2,), spd=(1,), spb=spb, spout=spout,
+                            caps=(2, 6, 2, cap3), out_delay=16))
     # one ingredient starves while the other one is waiting: the tokens of the gather-all batch fire out of list order
     C.append(comb_split(recipe=(1, 1, 1), two_ing=True, piat=(2, 2, 2, 2), iiat=(9, 9, 9, 9), iiat2=(1, 1, 1, 1)))
     C.append(comb_split(recipe=(1, 2, 1), two_ing=True, piat=(0, 6, 6), iiat=(7, 1, 7, 1, 7, 1), iiat2=(0, 0, 5, 5)))
@@ -296,7 +301,8 @@ def random_config(rng, i):
                          spin=rng.choice(["FIRST_AVAILABLE", "ROUND_ROBIN", 0]), delay=rng.choice([0, 0, 2]))
     else:
         two = rng.random() < 0.4
-        c = comb_split(recipe=(1, rng.randint(1, 3)) if not two else (1, rng.randint(1, 2), rng.randint(1, 2)), two_ing=two,
+        c = comb_split(recipe=(1, rng.randint(1, 4)) if not two else (1, rng.randint(1, 2), rng.randint(1, 2)), two_ing=two,
+                       out_delay=rng.choice([0, 0, 8, 20]), caps=(2, 4, 2, rng.randint(1, 3)),
                        iiat2=tuple(rng.choice([0, 1, 4, 9]) for _ in range(6)) if two else None,
                        piat=tuple(rng.choice([0, 3, 8]) for _ in range(3)),
                        iiat=tuple(rng.choice([0, 1, 2, 5]) for _ in range(7)), cpd=(rng.choice([0, 2, 5]),),
